@@ -170,6 +170,13 @@ func histCheck(prop, tier, level string) int {
 				specs = append(specs, nsqd.MicroSpec{State: st, MemQ: mq, TwoChan: true, Ops: []string{"pub", "exit"}})
 			}
 		}
+		// the restart itself as the explored operation: a data path on which an unpaused topic
+		// with two channels still holds messages in its own queue (what `publish || Exit` leaves
+		// when the pump sees the exit signal first); New + LoadMetadata + the loops interleave
+		// with the re-created topic's pump and the disk queues' ioLoops
+		for _, mq := range []int64{10, 0} {
+			specs = append(specs, nsqd.MicroSpec{State: "tbacklog2", MemQ: mq, Ops: []string{"restart"}})
+		}
 		secs := 15
 		if tier == "thorough" {
 			secs = 300
@@ -192,6 +199,9 @@ func histCheck(prop, tier, level string) int {
 			d2specs = nil
 			for _, s := range specs {
 				if s.MemQ == 10 && s.State != "queued" && len(s.Ops) == 2 && s.Ops[0] != "stats" && s.Ops[0] != "pause_ch" && s.Ops[0] != "disc1" {
+					d2specs = append(d2specs, s)
+				}
+				if s.State == "tbacklog2" && s.MemQ == 10 {
 					d2specs = append(d2specs, s)
 				}
 			}
